@@ -24,9 +24,9 @@ VERIF = os.path.dirname(HERE)
 sys.path.insert(0, HERE)
 import vx  # noqa: E402
 
-WORK = os.path.join(VERIF, ".work")
-REPLAYS = os.path.join(VERIF, "replays")
-EVID = os.path.join(VERIF, "evidence")
+WORK = os.environ.get("VERIF_WORK", os.path.join(VERIF, ".work"))
+REPLAYS = os.environ.get("VERIF_REPLAYS", os.path.join(VERIF, "replays"))
+EVID = os.environ.get("VERIF_EVIDENCE_DIR", os.path.join(VERIF, "evidence"))
 PROPS = json.load(open(os.path.join(VERIF, "specs", "props.json")))
 KNOWN = os.path.join(VERIF, "known_findings.json")
 
@@ -354,8 +354,13 @@ def main(argv):
         print("UNDECIDED:", u)
     if real_violations:
         os.makedirs(REPLAYS, exist_ok=True)
+        seen = set()
         for (c, fl) in real_violations:
             oblig = fl["function"] or "unknown"
+            if (c, oblig) in seen:
+                print(f"  failed obligation: {c}::{oblig}: {fl['message']} :: {fl.get('text','')}  (repo: {fl.get('origin')})")
+                continue
+            seen.add((c, oblig))
             rp = os.path.join(REPLAYS, f"{pid}-{c}-{oblig}.json")
             witness = None
             if fl.get("kani") and fl["kani"].get("witness"):
